@@ -154,6 +154,14 @@ Theorem C03_code_schemas_reencode_exact : forall sid bs v, fits_model sid = true
   decode env0 sid bs = DOk v [] ->
   (encode env0 sid v = bs <-> exists vs, has_type env0 (TStruct sid) (VStruct vs) /\ bs = encode env0 sid (VStruct vs)).
 Proof. exact CanonExamples.env0_reencode_exact. Qed.
+(* canonicalising an accepted input preserves its meaning: the re-encoding decodes, everything consumed, to a value
+   equal to the one first decoded, and re-encoding again changes nothing *)
+Theorem C03_reencode_meaning : forall e k n sid bs v,
+  wf_schema k e -> defaults_typed e -> arrs_ok e -> (S k <= 64)%nat ->
+  tfin n e (TStruct sid) = true -> (tneed n e (TStruct sid) + k <= 64)%nat ->
+  bytes_ok bs -> lenok bs -> decode e sid bs = DOk v [] ->
+  exists v', decode e sid (encode e sid v) = DOk v' [] /\ veq e (TStruct sid) v' v /\ encode e sid v' = encode e sid v.
+Proof. exact TypedProofs.reencode_meaning. Qed.
 (* ... and ONLY there: "decode-then-encode is the identity on every ACCEPTED input" is false. The readers accept more
    than the writers produce, by design of the wire format (readers widen): an integer in a wider-than-narrowest
    width, STRING4 for a short string, a member present at its default, ZeroTag for a float, a double sent as FLOAT,
@@ -213,6 +221,7 @@ Print Assumptions C03_code_schemas_reencode_canonical.
 Print Assumptions C03_code_schemas_encode_injective.
 Print Assumptions C03_reencode_exact.
 Print Assumptions C03_code_schemas_reencode_exact.
+Print Assumptions C03_reencode_meaning.
 Print Assumptions C03_reencode_identity_refuted.
 Print Assumptions C03_noncanonical_images.
 Print Assumptions C03_shapes_roundtrip.
